@@ -60,6 +60,7 @@ def case_requests(rng, seq, s, objects=True, explicit=True):
 
 
 NAMES = [("a", "b", "c"), ("a",), ("x", "y", "long_name-1", "d7")]
+FORMS = ["tuple", "str", "iter", "gen", "complex"]          # forms of the structure argument besides a list
 
 
 def build(ctx):
@@ -161,6 +162,41 @@ def snippet(c):
             "print([cx.rotate_pairtable_loc((i, 0), 1) for i in range(cx.size)])\n")
 
 
+def forms_snippet(fn, seq, sst, sform, tform):
+    arg = {"list": "list(sst)", "tuple": "tuple(sst)", "str": "''.join(sst)", "iter": "iter(list(sst))",
+           "gen": "(c for c in list(sst))", "complex": "cx.structure"}[tform]
+    sq = "''.join(seq)" if sform == "str" else "list(cx.sequence)" if tform == "complex" else "list(seq)"
+    show = "lambda r: (list(map(str, r[0])), ''.join(r[1]))"
+    if fn == "rotate_complex_db":
+        show = "lambda r: [(list(map(str, x)), ''.join(y)) for x, y in r]"
+    return ("from dsdobjects.base_classes import DomainS, ComplexS\n"
+            f"from dsdobjects.complex_utils import {fn} as f\n"
+            f"seq, sst = {seq!r}, list({''.join(sst)!r})\n"
+            f"show = {show}\n"
+            + ("d = {n: DomainS(n, length=5) for n in seq if n != '+'}\n"
+               "cx = ComplexS([d.get(n, n) for n in seq], list(sst))\n" if tform == "complex" else "")
+            + "print(show(f(list(seq), list(sst))))      # both arguments as lists\n"
+            f"print(show(f({sq}, {arg})))      # the same complex, structure as {arg}\n")
+
+
+def forms_witnesses(diffs):
+    """disagreements of `rotate_forms` requests: the direct statement on the implementation is that the answer does not depend
+    on the form in which the (well-formed, aligned) arguments are handed over"""
+    from common import run_impl
+    out = []
+    ds = sorted([d for d in diffs if d[1][0] == "rotate_forms"], key=lambda d: len(d[1][1][2]))
+    for d in ds[:6]:
+        fn, seq, sst, sform, tform = d[1][1]
+        a_, b_ = run_impl([("rotate_forms", [fn, seq, sst, "list", "list"]), d[1]], jobs=1)
+        if a_ != b_:
+            how = {"complex": "the iterator ComplexS.structure", "iter": "a one-shot iterator", "gen": "a generator"}.get(tform, "a " + tform)
+            out.append({"key": {"forms": [fn, seq, "".join(sst), sform, tform]}, "input": {"forms": d[1][1]},
+                        "what": f"{fn} answers {b_!r} when the structure is handed over as {how} (sequence as {sform}) and "
+                                f"{a_!r} for the same complex as two lists",
+                        "snippet": forms_snippet(fn, seq, sst, sform, tform)})
+    return out
+
+
 def history_witnesses(diffs):
     """disagreements of view histories (query, turns assignment, query): the direct statement of the property on the
     implementation is that every view equals that of a fresh complex at the same rotation"""
@@ -244,11 +280,31 @@ def run(ctx):
                 direct.append({"key": {"seq": rq[1][0], "struct": "".join(rq[1][1]), "ops": rq[1][2]}, "input": {"history": rq[1]},
                                "what": str(r), "snippet": f"# harness op c03_fresh_compare {rq[1]!r} (harness/impl/views.py)"})
         ctx.cov["correspondence"]["generators-after-split(impl)"] = {"cases": len(spl), "failures": len(direct)}
+        # argument forms: the utility functions copy the structure (list(sst) / one pass over it), so it may be any iterable
+        # of characters - a tuple, a str, a one-shot iterator or generator, and in particular what a ComplexS hands out
+        # (list(cx.sequence) with domain OBJECTS and the iterator cx.structure); rotate_complex_db also takes a str sequence
+        freqs, fimpl = [], []
+        wf_small = [c for c in small if gs.is_wf(c["sst"])]
+        fpool = [c for c in wf_small if "+" not in c["sst"]][:: (8 if ctx.tier == "quick" else 1)] + \
+                rng.sample(wf_small, min(len(wf_small), 250 if ctx.tier == "quick" else 4000)) + rnd[:40] + rnd[-12:]
+        for c_ in fpool:
+            seq_, s_ = list(c_["seq"]), c_["sst"]
+            if len(seq_) != len(s_):
+                continue
+            for fn_ in ("rotate_complex_once", "rotate_complex_db"):
+                tf_ = rng.choice(FORMS)
+                sf_ = "str" if (fn_ == "rotate_complex_db" and tf_ != "complex" and rng.random() < 0.3) else "list"
+                sq_ = ["+" if x == "+" else rng.choice("ACGT") for x in seq_] if sf_ == "str" else seq_
+                freqs.append((fn_, [sq_, list(s_)]))
+                fimpl.append(("rotate_forms", [fn_, sq_, list(s_), sf_, tf_]))
+        diffs += correspond(ctx, "argument-forms", freqs, impl_reqs=fimpl)
     ctx.cov["rule"] = ("every well-formed structure with non-empty strands up to the tier's length bound (8 quick / 10 "
                        "thorough) with generated domain content, random structures up to 60 strands / depth 100, single "
                        "strands, disconnected and rotationally symmetric complexes, each through rotate_complex_once, "
                        "rotate_complex_db and rotate_complex_pt (turns None and every kind of explicit int: negative, 0, < n, n, > n), ComplexS.rotate / rotate_pt (likewise) / "
-                       "rotate_pairtable_loc; plus mutated (ill-formed, empty-strand, misaligned) inputs; "
+                       "rotate_pairtable_loc; the structure handed to rotate_complex_once / rotate_complex_db as tuple, str, one-shot iterator, "
+                       "generator and as the iterator ComplexS.structure (sequence of domain objects), the sequence of "
+                       "rotate_complex_db as str; plus mutated (ill-formed, empty-strand, misaligned) inputs; "
                        "non-trivial = distinct results on which model and implementation agree")
     ctx.cov["small_scope_structures"] = len(small)
     ctx.cov["random_structures"] = len(rnd)
@@ -257,7 +313,7 @@ def run(ctx):
 
     def search(diffs):
         from corr import after_witnesses
-        pre = history_witnesses(diffs) + after_witnesses(diffs)
+        pre = history_witnesses(diffs) + after_witnesses(diffs) + forms_witnesses(diffs)
         from common import run_impl as _ri
         for d in [x for x in diffs if x[1][0] == "rotate_complex_db_str"][:10]:
             a_, b_ = _ri([("rotate_complex_db", d[1][1]), ("rotate_complex_db_str", d[1][1])], jobs=1)
@@ -302,6 +358,12 @@ def replay(data):
         from common import run_impl
         a_, b_ = run_impl([("rotate_complex_db", inp["string_args"]), ("rotate_complex_db_str", inp["string_args"])], jobs=1)
         print(a_, b_)
+        return 1 if a_ != b_ else 0
+    if isinstance(inp, dict) and "forms" in inp:
+        from common import run_impl
+        fn, seq, sst, sform, tform = inp["forms"]
+        a_, b_ = run_impl([("rotate_forms", [fn, seq, sst, "list", "list"]), ("rotate_forms", inp["forms"])], jobs=1)
+        print("as lists:", a_, f"| structure as {tform}, sequence as {sform}:", b_)
         return 1 if a_ != b_ else 0
     if isinstance(inp, dict) and "after" in inp:
         from common import run_impl
